@@ -1,8 +1,8 @@
 (* Extract/C01.v — OCaml extraction of the UEFI core model (parse + assemble). *)
-From Fiano Require Import Base.Bytes Model.Ffs Model.FfsSpec Model.FfsGrammar Model.TightenMe Model.FlashImage.
+From Fiano Require Import Base.Bytes Model.Ffs Model.FfsSpec Model.FfsGrammar Model.FfsAbstract Model.TightenMe Model.FlashImage.
 Require Extraction.
 Require Import ExtrOcamlBasic.
 Extraction Language OCaml.
 Extraction "../ocaml/c01/model.ml" parse_region save_region parse_fv parse_file parse_section
-  asm asm_bios node_buf create_pad_file emit_region wfb_region emit_f flay xh_bytes
+  asm asm_bios node_buf create_pad_file emit_region wfb_region emit_f flay xh_bytes in_grammar
   save_flash flash_layout flash_bios_bytes.
